@@ -18,6 +18,7 @@ import ALV.Lemmas.C13Comb
 import ALV.Lemmas.C13Contract
 import ALV.Lemmas.C13Hist
 import ALV.Lemmas.C13Call
+import ALV.Lemmas.C13Thub
 import Mathlib.Analysis.SpecialFunctions.Trigonometric.Inverse
 import Mathlib.Analysis.SpecialFunctions.Trigonometric.Bounds
 import ALV.Common.Audit
@@ -1425,6 +1426,223 @@ example : (gammatoneErbConstants 4 : ℝ × ℝ).1 = 16 / (5 * Real.pi) := by
   ring
 -- 12g / 12h: delay 3, alpha 1/2, a 5-sample signal: n = 4 ≥ 3 and n = 1 < 3 are both instances
 example : (4 : ℕ) < ([1, 2, 3, 4, 5] : List ℝ).length ∧ ¬ (4 < 2 + 1) ∧ (1 : ℕ) < 2 + 1 := by simp
+
+/-- **C13.12p** reading a lazy `erb` result ON: with no `Hz`, frequencies `pre` (all accepted), then one below 7,
+then anything: the reads show the single calls on `pre`, then the `ValueError`, and from then on
+`StopIteration` for ever (`none`) — the frequencies behind the refused one are never evaluated; with every
+frequency accepted the reads are the single calls and then `StopIteration`. -/
+theorem erb_lazy_reading_on (st : Option ErbStrategy) (pre post : List ℝ) (f : ℝ) (hpre : ∀ g ∈ pre, 7 ≤ g) (n : ℕ) :
+    (f < 7 →
+      erbCallLazy st (pre ++ f :: post) none = pre.map (fun g => .ok (erb (st.getD .gm90) g 1)) ++ [.error ()] ∧
+      ∀ k, k < n → (erbLazyReads st (pre ++ f :: post) none n)[k]? = some
+        (if k < pre.length then some (.ok (erb (st.getD .gm90) (pre.getD k 0) 1))
+         else if k = pre.length then some (.error ()) else none)) ∧
+    (∀ k, k < n → (erbLazyReads st pre none n)[k]? = some
+        (if k < pre.length then some (.ok (erb (st.getD .gm90) (pre.getD k 0) 1)) else none)) := by
+  have hok : ∀ l : List ℝ, (∀ g ∈ l, 7 ≤ g) → ∀ rest : List ℝ,
+      erbCallLazy st (l ++ rest) none = l.map (fun g => .ok (erb (st.getD .gm90) g 1)) ++ erbCallLazy st rest none := by
+    intro l hl rest
+    induction l with
+    | nil => rfl
+    | cons g l ih =>
+      have h7 := hl g (by simp)
+      simp [erbCallLazy, (erb_call st g).2.1 h7, ih (fun x hx => hl x (by simp [hx]))]
+  have hreads : ∀ (l : List ℝ) (k : ℕ), k < n →
+      (erbLazyReads st l none n)[k]? = some ((erbCallLazy st l none)[k]?) := by
+    intro l k hk
+    simp [erbLazyReads, hk]
+  refine ⟨fun hf => ?_, fun k hk => ?_⟩
+  · have hlazy : erbCallLazy st (pre ++ f :: post) none
+        = pre.map (fun g => .ok (erb (st.getD .gm90) g 1)) ++ [.error ()] := by
+      rw [hok pre hpre]; simp [erbCallLazy, (erb_call st f).1 hf]
+    refine ⟨hlazy, fun k hk => ?_⟩
+    rw [hreads _ k hk, hlazy]
+    by_cases h1 : k < pre.length
+    · simp [h1, List.getElem?_append_left, List.getD_eq_getElem?_getD]
+    · by_cases h2 : k = pre.length
+      · subst h2; simp
+      · have : pre.length + 1 ≤ k := by omega
+        simp [h1, h2, List.getElem?_eq_none, this]
+  · rw [hreads _ k hk]
+    have := hok pre hpre []
+    rw [List.append_nil] at this
+    rw [this]
+    by_cases h1 : k < pre.length
+    · simp [h1, erbCallLazy, List.getD_eq_getElem?_getD]
+    · simp [h1, erbCallLazy, List.getElem?_eq_none, Nat.le_of_not_lt h1]
+
+-- 12p: 1000 Hz, then 5 (refused), then 2000 Hz, four reads
+example : (∀ g ∈ ([1000] : List ℝ), 7 ≤ g) ∧ (5 : ℝ) < 7 := by constructor <;> norm_num
+
+/-! ### 13. Stream-valued arguments: the tee-hub machine of the strategy bodies (`ALV/Model/C13Thub.lean`)
+
+Each strategy body is transcribed as a program over iterator objects (the caller's argument used
+directly, or one copy of a `thub`); `SE.next` reads one item of every leaf of a coefficient, so an object
+that is read from two places hands every other value to each.  The driver runs `thubModel` (entry `thub`)
+against the real designs called with `Stream(*values)` arguments, their filter objects read by arbitrary
+schedules. -/
+
+/-- **C13.13a** "stream-valued parameters whose coefficients must equal the constant design's sample by
+sample", for EVERY strategy (`lowpass` / `highpass` × 4, `resonator` × 4, `comb.fb` / `tau` / `ff` with every
+delay, `gammatone.klapuri`), every pair of argument sequences, every schedule of reads (any order, any
+rates), any number type (the driver's `Float` run and the reals): read number `k` of the filter object at
+position `j` shows — after `Poly`'s "a zero NUMBER is not stored" — section `j` of the constant design of
+value number `k` of each argument. -/
+theorem thub_reads_are_constant_designs {α : Type} [TrigField α] [ZeroTest α] (kind : Kind) (v1 v2 : List α)
+    (sched : List ℕ) :
+    (thubModel kind v1 v2 sched).map trimmed = constReads kind v1 v2 [] sched := by
+  unfold thubModel
+  rw [runReads_eq_specReads _ _ (wf_linear _ (wf_progOf kind)) sched [] Pos.init (fun _ _ _ => rfl)]
+  exact specReads_trimmed kind v1 v2 [] sched
+
+/-- **C13.13b** the strategy bodies use their tee hubs correctly: one identifier = one hub, every iterator
+object (argument, hub copy) has exactly ONE reader, and of a hub declared with `n` copies exactly `n` are
+taken (`wfDesign`; no `MemoryLeakWarning`, no `IndexError`) — in particular no two coefficients read the
+same object (`Linear`). -/
+theorem thub_programs_wellformed (kind : Kind) : wfDesign (progOf kind) = true ∧ Linear (progOf kind) :=
+  ⟨wf_progOf kind, wf_linear _ (wf_progOf kind)⟩
+
+/-- **C13.13c** the machine, for ANY cascade of filter objects no two of which read a common iterator
+object, any arguments, any schedule: read number `k` of position `j` shows ITS instant `k`
+(`secAt p k`), whatever was read in between. -/
+theorem thub_machine_schedule {α : Type} [TrigField α] [ZeroTest α] (p : ℕ → ℕ → α) (secs : List SSec)
+    (h : Linear secs) (sched : List ℕ) :
+    runReads p secs sched Pos.init = specReads p secs [] sched :=
+  runReads_eq_specReads p secs h sched [] Pos.init (fun _ _ _ => rfl)
+
+/-- **C13.13d** `gammatone.klapuri`: the four sections are four DIFFERENT filter objects — four calls, each
+with its own hubs and its own copy of `freq` and of `2·bandwidth`: no iterator object is read by two
+sections — and at every instant they are the constant `klapuri` design of that instant's values. -/
+theorem klapuri_sections_are_distinct_objects {α : Type} [TrigField α] [ZeroTest α] (p : ℕ → ℕ → α) (k : ℕ) :
+    (klapuriS (.par 0) (.par 1)).length = 4 ∧ Linear (klapuriS (.par 0) (.par 1)) ∧
+    (∀ i j : ℕ, i ≠ j → ∀ o : IObj, o ∈ secLeaves ((klapuriS (.par 0) (.par 1)).getD i emptySec) →
+        o ∉ secLeaves ((klapuriS (.par 0) (.par 1)).getD j emptySec)) ∧
+    (klapuriS (.par 0) (.par 1)).map (fun s => trimmed (secAt p k s)) = gammatoneKlapuri (p 0 k) (p 1 k) := by
+  have hl : Linear (klapuriS (.par 0) (.par 1)) := wf_linear _ (wf_progOf .klapuri)
+  exact ⟨rfl, hl, fun i j hij o hi hj => linear_disjoint _ hl i j hij o hi hj, klapuriS_at p k _ _⟩
+
+/-- **C13.13e** why they must be: with the two sections designed once and the pair repeated (`pair * 2`,
+the same two objects at positions 0, 2 and 1, 3) the cascade is not `Linear`, and reading the four
+positions once each — the first output sample — shows instant 0 at positions 0, 1 but instant ONE at
+positions 2, 3: each object hands every other value of the arguments to each of its two places. -/
+theorem klapuri_aliased_shows_next_instant {α : Type} [TrigField α] [ZeroTest α] (p : ℕ → ℕ → α) :
+    ¬ Linear (klapuriAliasedS (.par 0) (.par 1)) ∧
+    runReads p (klapuriAliasedS (.par 0) (.par 1)) [0, 1, 2, 3] Pos.init
+      = [secAt p 0 ((klapuriAliasedS (.par 0) (.par 1)).getD 0 emptySec),
+         secAt p 0 ((klapuriAliasedS (.par 0) (.par 1)).getD 1 emptySec),
+         secAt p 1 ((klapuriAliasedS (.par 0) (.par 1)).getD 0 emptySec),
+         secAt p 1 ((klapuriAliasedS (.par 0) (.par 1)).getD 1 emptySec)] := by
+  refine ⟨klapuriAliased_not_linear, ?_⟩
+  have hpair : Linear ((klapuriAliasedS (.par 0) (.par 1)).take 2) := by unfold Linear; decide
+  have h := runReads_eq_specReads p _ hpair [0, 1, 0, 1] [] Pos.init (fun _ _ _ => rfl)
+  exact h
+
+/-- **C13.13f** one object read from two places, in general: the second read shows the NEXT instant. -/
+theorem shared_object_reads_alternate {α : Type} [TrigField α] [ZeroTest α] (p : ℕ → ℕ → α) (s : SSec)
+    (st : Pos) (k : ℕ) (hk : ∀ o ∈ secLeaves s, st o = k) (hnd : (secLeaves s).Nodup) :
+    (readSec p s st).1 = secAt p k s ∧ (readSec p s (readSec p s st).2).1 = secAt p (k + 1) s :=
+  readSec_twice p s st k hk hnd
+
+/-- **C13.13g** with NUMBER arguments (constant sequences) any sharing is harmless: whatever the cascade
+(one filter object at several positions, as `[fn] * (eta - 1)` in `gammatone.sampled`), whatever the
+schedule and the state, every read shows the one constant design — a filter object with number
+coefficients keeps nothing between two reads. -/
+theorem number_arguments_any_sharing_harmless {α : Type} [TrigField α] [ZeroTest α] (p : ℕ → ℕ → α)
+    (hp : ∀ i k, p i k = p i 0) (secs : List SSec) (sched : List ℕ) (st : Pos) :
+    runReads p secs sched st = sched.map fun j => secAt p 0 (secs.getD j emptySec) := by
+  induction sched generalizing st with
+  | nil => rfl
+  | cons j js ih => simp only [runReads, List.map_cons, readSec_const p hp, ih]
+
+-- 13c / 13d: the klapuri cascade is linear; 13f: a section whose leaves are all at position 0
+example : Linear (progOf .klapuri) := (thub_programs_wellformed .klapuri).2
+example : ∀ o ∈ secLeaves (lowpassS 0 .z (.par 0)), Pos.init o = 0 := fun _ _ => rfl
+example : (secLeaves (lowpassS 0 .z (.par 0))).Nodup := by decide
+-- 13g: number arguments are constant sequences
+example (a b : ℝ) : ∀ i k, argSeq [a] [b] i k = argSeq [a] [b] i 0 := by
+  intro i k; simp [argSeq, cyc, Nat.mod_one]
+
+/-! ### 14. the clauses "pole strictly inside the unit circle" / "pole radius" are not vacuous, and every
+gammatone section is stable -/
+
+/-- **C13.14a** every lowpass / highpass design HAS its pole (4a says where every pole lies), except
+`lowpass.z` / `highpass.z` at the cut-off `π/2` exactly, where `R = 0`: the design is the FIR filter
+`(1 ± z⁻¹)/2` (pole at the origin). -/
+theorem lowpass_highpass_pole_exists (st : Strategy) (c : ℝ) (h0 : 0 < c) (h1 : c < Real.pi) :
+    ((∃ p : ℂ, IsPole (lowpass st c) p) ↔ ¬ (st = .z ∧ Real.cos c = 0)) ∧
+    ((∃ p : ℂ, IsPole (highpass st c) p) ↔ ¬ (st = .z ∧ Real.cos c = 0)) := by
+  have hs := Real.sin_pos_of_pos_of_lt_pi h0 h1
+  have hz : zR c = 0 ↔ Real.cos c = 0 := by
+    have e := zR_mul_sin c h0 h1
+    constructor
+    · intro h; rw [h, zero_mul] at e; exact e.symm
+    · intro h; rw [h] at e
+      rcases mul_eq_zero.1 e with h' | h'
+      · exact h'
+      · linarith
+  obtain ⟨_, _, pl⟩ := lowpassR_bounds st c h0 h1
+  obtain ⟨_, _, ph⟩ := highpassR_bounds st c h0 h1
+  have key : ∀ x : ℝ, (∃ p : ℂ, p ≠ 0 ∧ p = ((x : ℝ) : ℂ)) ↔ x ≠ 0 := by
+    intro x
+    constructor
+    · rintro ⟨p, hp, rfl⟩; exact_mod_cast hp
+    · intro hx; exact ⟨_, by exact_mod_cast hx, rfl⟩
+  constructor
+  · simp only [lowpass_isPole_iff, key]
+    cases st
+    · simp [lowpassPoleAt, (pl (by decide)).ne']
+    · simp [lowpassPoleAt, lowpassR, hz]
+    · simp [lowpassPoleAt, (pl (by decide)).ne']
+    · simp [lowpassPoleAt, (pl (by decide)).ne']
+  · simp only [highpass_isPole_iff, key]
+    cases st
+    · simp [highpassPoleAt, (ph (by decide)).ne']
+    · simp [highpassPoleAt, highpassR, hz]
+    · simp [highpassPoleAt, (ph (by decide)).ne']
+    · simp [highpassPoleAt, (ph (by decide)).ne']
+
+/-- **C13.14b** every resonator HAS a pole of the documented radius `e^{-bw/2}` (5e says that every pole has
+it): `poles_exp`, `freq_poles_exp`, `freq_z_exp` for all parameters, `z_exp` on its region
+`|cos f|·(1+R²) ≤ 2R`. -/
+theorem resonator_poles_exist (st : ResStrategy) (f bw : ℝ) (h0 : 0 < f) (h1 : f < Real.pi)
+    (hz : st = .zExp → |Real.cos f| * (1 + Real.exp (-(bw / 2)) ^ 2) ≤ 2 * Real.exp (-(bw / 2))) :
+    ∃ p : ℂ, IsPole (resonator st f bw) p ∧ ‖p‖ = Real.exp (-(bw / 2)) := by
+  have hR0 := resR_pos bw
+  have hf := cos_sq_lt_one_of_mem f h0 h1
+  have r := resonator_pole_radius f bw h0 h1
+  have key : ∀ (b : List ℝ) (ct : ℝ), ct ^ 2 ≤ 1 →
+      ∃ p : ℂ, IsPole (C13.mk b [1, -(2 * Real.exp (-(bw / 2)) * ct), Real.exp (-(bw / 2)) ^ 2]) p :=
+    fun b ct h => ⟨_, res_pole_exists b _ ct hR0 h⟩
+  cases st
+  · obtain ⟨p, hp⟩ : ∃ p : ℂ, IsPole (resonator .polesExp f bw) p := by
+      simp only [resonator, resonatorPolesExp_eq]
+      exact key _ _ (ctPoles_sq_lt_one f _ hR0 hf).le
+    exact ⟨p, hp, (r p).1 hp⟩
+  · obtain ⟨p, hp⟩ : ∃ p : ℂ, IsPole (resonator .freqPolesExp f bw) p := by
+      simp only [resonator, resonatorFreqPolesExp_eq]
+      exact key _ _ hf.le
+    exact ⟨p, hp, (r p).2.1 hp⟩
+  · obtain ⟨p, hp⟩ : ∃ p : ℂ, IsPole (resonator .zExp f bw) p := by
+      simp only [resonator, resonatorZExp_eq]
+      exact key _ _ ((ctZ_sq_le_one_iff f _ hR0).2 (hz rfl))
+    exact ⟨p, hp, (r p).2.2.2 (hz rfl) hp⟩
+  · obtain ⟨p, hp⟩ : ∃ p : ℂ, IsPole (resonator .freqZExp f bw) p := by
+      simp only [resonator, resonatorFreqZExp_eq]
+      exact key _ _ hf.le
+    exact ⟨p, hp, (r p).2.2.1 hp⟩
+
+/-- **C13.14c** "every gammatone strategy returns a cascade of STABLE sections", in one statement: every
+pole of every section of `slaney`, of `sampled` (every order `eta`, every phase) and of `klapuri` lies
+strictly inside the unit circle, for every centre frequency in (0, π) and bandwidth > 0. -/
+theorem gammatone_every_section_stable (f bw : ℝ) (h0 : 0 < f) (h1 : f < Real.pi) (hbw : 0 < bw) (p : ℂ) :
+    (∀ s ∈ gammatoneSlaney f bw, IsPole s p → ‖p‖ < 1) ∧
+    (∀ (φ : ℝ) (eta : ℕ), ∀ s ∈ gammatoneSampled f bw φ eta, IsPole s p → ‖p‖ < 1) ∧
+    (∀ s ∈ gammatoneKlapuri f bw, IsPole s p → ‖p‖ < 1) := by
+  obtain ⟨m1, m2, m3⟩ := gammatone_meets_contract f bw h0 h1 hbw
+  exact ⟨fun s hs => (m1 s hs).2.2.2.2.2.2.2.2 p, fun φ eta s hs => (m2 φ eta s hs).2.2.2.2.2.2.2.2 p,
+    fun s hs => (m3 s hs).2.2.2.2.2.2.2.2 p⟩
+
+-- 14b: the z_exp hypothesis at f = π/2 (every bandwidth): see the example of 5e above
 
 end ALV.Props.C13
 
